@@ -1,7 +1,7 @@
 /-
   G/Imports — model of the lazy import table of derive/printer.go.
 
-  Go code (derive/printer.go):
+  Go code (derive/printer.go, after fix 81ad18a):
 
     imports map[string]string                      // alias -> path
     func (p *printer) NewImport(name, path string) Import {
@@ -9,13 +9,21 @@
         path = unvendor(path); fullpath := makeFullpath(path); alias := name
         if _, ok := p.imports[alias]; !ok { p.imports[alias] = path; return alias }
         if p.imports[alias] == path { return alias }
-        if path2, ok := p.imports[fullpath]; ok { if path2 != path { panic("non unique fullpath…") } }
-        p.imports[fullpath] = path; return fullpath } }
+        alias = fullpath
+        for i := 2; ; i++ { path2, ok := p.imports[alias]; if !ok || path2 == path { break }
+                            alias = fullpath + "_" + strconv.Itoa(i) }
+        p.imports[alias] = path; return alias } }
+
+  i.e. the first USABLE alias (unbound, or bound to this very path) among  name, fullpath, fullpath_2,
+  fullpath_3, …  is bound to the path and returned. (Before the fix a bound `fullpath` with another path was
+  `panic("non unique fullpath")`.)
 
   The table is an association list in insertion order; Go's map is observed only through lookups and
   through the range in WriteTo (modelled in G/Determinism as "any permutation of this list").
-  `unv` (unvendor) and `full` (makeFullpath) are parameters here; `unvendor` itself is modelled on path
-  segments below. `none` models the Go panic.
+  Parameters: `unv` (unvendor), `full` (makeFullpath), `sfx fp i` (the i-th candidate after the name:
+  `sfx fp 0 = fp`, `sfx fp (i+1) = fp ++ "_" ++ itoa (i+2)`; only its injectivity in i is used).
+  `unvendor` itself is modelled on path segments below. The search loop gets fuel `len(table)+1`; `none`
+  would mean the Go loop does not terminate — `newImport_total` shows that cannot happen.
 -/
 namespace Goderive.G.Imports
 
@@ -34,26 +42,39 @@ structure Req where
   path : String
   deriving DecidableEq, Repr
 
-/-- One invocation of the closure returned by NewImport(name, path). `none` = panic. -/
-def newImport (unv full : String → String) (t : Table) (r : Req) : Option (Table × String) :=
-  let path := unv r.path
-  let fullpath := full path
-  match lookup r.name t with
-  | none => some (t ++ [(r.name, path)], r.name)
-  | some p =>
-    if p = path then some (t, r.name)
-    else match lookup fullpath t with
-      | some p2 => if p2 = path then some (t, fullpath) else none
-      | none => some (t ++ [(fullpath, path)], fullpath)
+/-- the alias is unbound, or bound to this very path -/
+def usable (t : Table) (a path : String) : Bool :=
+  match lookup a t with
+  | none => true
+  | some p => decide (p = path)
+
+/-- `p.imports[a] = path` for a usable alias -/
+def bind (t : Table) (a path : String) : Table :=
+  match lookup a t with
+  | none => t ++ [(a, path)]
+  | some _ => t
+
+/-- the loop `alias = fullpath; for i := 2; ; i++ { … }`: candidates `sfx fp i, sfx fp (i+1), …` -/
+def findAlias (sfx : String → Nat → String) (t : Table) (fp path : String) : Nat → Nat → Option String
+  | 0, _ => none
+  | fuel + 1, i => if usable t (sfx fp i) path then some (sfx fp i) else findAlias sfx t fp path fuel (i + 1)
+
+/-- One invocation of the closure returned by NewImport(name, path). -/
+def newImport (unv full : String → String) (sfx : String → Nat → String) (t : Table) (r : Req) :
+    Option (Table × String) :=
+  if usable t r.name (unv r.path) then some (bind t r.name (unv r.path), r.name)
+  else match findAlias sfx t (full (unv r.path)) (unv r.path) (t.length + 1) 0 with
+    | none => none
+    | some a => some (bind t a (unv r.path), a)
 
 /-- A sequence of closure invocations, in program order. -/
-def run (unv full : String → String) : Table → List Req → Option (Table × List String)
+def run (unv full : String → String) (sfx : String → Nat → String) : Table → List Req → Option (Table × List String)
   | t, [] => some (t, [])
   | t, r :: rs =>
-    match newImport unv full t r with
+    match newImport unv full sfx t r with
     | none => none
     | some (t', a) =>
-      match run unv full t' rs with
+      match run unv full sfx t' rs with
       | none => none
       | some (t'', as) => some (t'', a :: as)
 
@@ -122,32 +143,44 @@ theorem lookup_append_none {k : String} {t u : Table} (h : lookup k t = none) :
       simp only [List.cons_append, lookup, ha, if_false]
       exact ih h'
 
-/-! ### the invariant -/
-
-/-- `nm` gives the package name of an (unvendored) import path: the requests are consistent when every
-request for a path carries that name (go/types: a package has one name; the plugins' own
-`p.NewImport("bytes", "bytes")` calls use the real name). -/
-def Consistent (unv nm : String → String) (r : Req) : Prop := r.name = nm (unv r.path)
-
-/-- Invariant of the table: aliases are distinct; every entry is either under its package name or under
-its full path with the package name already taken. -/
-structure Inv (full nm : String → String) (t : Table) : Prop where
-  keysNodup : (keys t).Nodup
-  shape : ∀ a p, (a, p) ∈ t → a = nm p ∨ (a = full p ∧ nm p ∈ keys t ∧ lookup (nm p) t ≠ some p)
-
-theorem inv_nil (full nm : String → String) : Inv full nm [] :=
-  ⟨by simp [keys], by intro a p h; simp at h⟩
-
-/-- Every path occurs under exactly one alias ("one alias per path"). -/
-theorem Inv.vals_unique {full nm : String → String} {t : Table} (h : Inv full nm t)
-    {a b p : String} (ha : (a, p) ∈ t) (hb : (b, p) ∈ t) : a = b := by
-  rcases h.shape a p ha with h1 | ⟨h1, _, h1n⟩ <;> rcases h.shape b p hb with h2 | ⟨h2, _, h2n⟩
-  · rw [h1, h2]
-  · exact absurd (lookup_of_mem_nodup h.keysNodup (h1 ▸ ha)) h2n
-  · exact absurd (lookup_of_mem_nodup h.keysNodup (h2 ▸ hb)) h1n
-  · rw [h1, h2]
+/-! ### usable / bind / findAlias -/
 
 theorem keys_append (t u : Table) : keys (t ++ u) = keys t ++ keys u := by simp [keys]
+
+theorem not_usable_iff {t : Table} {a path : String} :
+    usable t a path = false ↔ ∃ q, lookup a t = some q ∧ q ≠ path := by
+  unfold usable
+  cases h : lookup a t with
+  | none => simp
+  | some p => simp
+
+theorem usable_iff {t : Table} {a path : String} :
+    usable t a path = true ↔ lookup a t = none ∨ lookup a t = some path := by
+  unfold usable
+  cases h : lookup a t with
+  | none => simp
+  | some p => simp
+
+theorem not_usable_append {t u : Table} {a path : String} (h : usable t a path = false) :
+    usable (t ++ u) a path = false := by
+  obtain ⟨q, hq, hne⟩ := not_usable_iff.1 h
+  exact not_usable_iff.2 ⟨q, lookup_append_left hq, hne⟩
+
+theorem bind_extends (t : Table) (a path : String) : ∃ u, bind t a path = t ++ u := by
+  unfold bind
+  cases lookup a t with
+  | none => exact ⟨_, rfl⟩
+  | some _ => exact ⟨[], by simp⟩
+
+theorem lookup_bind {t : Table} {a path : String} (h : usable t a path = true) :
+    lookup a (bind t a path) = some path := by
+  unfold bind
+  rcases usable_iff.1 h with h | h
+  · rw [h]; simp only; rw [lookup_append_none h]; simp [lookup]
+  · rw [h]; simp only; exact h
+
+theorem bind_of_bound {t : Table} {a path : String} (h : lookup a t = some path) : bind t a path = t := by
+  simp [bind, h]
 
 private theorem nodup_append_single {l : List String} {k : String} (h : l.Nodup) (hk : k ∉ l) :
     (l ++ [k]).Nodup := by
@@ -157,71 +190,192 @@ private theorem nodup_append_single {l : List String} {k : String} (h : l.Nodup)
   simp at hb; subst hb
   intro e; subst e; exact hk ha
 
-/-- NewImport preserves the invariant (when it does not panic). -/
-theorem newImport_inv {unv full nm : String → String} {t t' : Table} {r : Req} {a : String}
-    (hI : Inv full nm t) (hc : Consistent unv nm r)
-    (h : newImport unv full t r = some (t', a)) : Inv full nm t' := by
-  unfold newImport at h
-  simp only at h
-  unfold Consistent at hc
-  split at h
-  · -- alias free: add (name, path)
-    next hnone =>
-    simp only [Option.some.injEq, Prod.mk.injEq] at h
-    obtain ⟨rfl, rfl⟩ := h
-    have hk : r.name ∉ keys t := lookup_none_iff.1 hnone
-    refine ⟨by rw [keys_append]; exact nodup_append_single hI.keysNodup (by simpa [keys] using hk), ?_⟩
-    intro b p hb
-    rcases List.mem_append.1 hb with hb | hb
-    · rcases hI.shape b p hb with h1 | ⟨h1, h2, h3⟩
-      · exact Or.inl h1
-      · refine Or.inr ⟨h1, by rw [keys_append]; exact List.mem_append_left _ h2, ?_⟩
-        obtain ⟨q, hq⟩ : ∃ q, lookup (nm p) t = some q := by
-          cases hl : lookup (nm p) t with
-          | none => exact absurd (lookup_none_iff.1 hl) (by simpa using h2)
-          | some q => exact ⟨q, rfl⟩
-        rw [lookup_append_left hq]; rw [hq] at h3; exact h3
-    · simp at hb; obtain ⟨rfl, rfl⟩ := hb; exact Or.inl hc
-  · next p hsome =>
+theorem bind_keys_nodup {t : Table} (a path : String) (h : (keys t).Nodup) : (keys (bind t a path)).Nodup := by
+  unfold bind
+  cases hl : lookup a t with
+  | none =>
+    simp only
+    rw [keys_append]
+    exact nodup_append_single h (by simpa [keys] using lookup_none_iff.1 hl)
+  | some _ => exact h
+
+section
+variable (sfx : String → Nat → String) (t : Table) (fp path : String)
+
+theorem findAlias_some : ∀ (fuel i : Nat) {a : String}, findAlias sfx t fp path fuel i = some a →
+    ∃ j, i ≤ j ∧ j < i + fuel ∧ a = sfx fp j ∧ usable t a path = true ∧
+      ∀ k, i ≤ k → k < j → usable t (sfx fp k) path = false
+  | 0, _, _, h => by simp [findAlias] at h
+  | fuel + 1, i, a, h => by
+    unfold findAlias at h
     split at h
-    · -- same path already under the alias
-      simp only [Option.some.injEq, Prod.mk.injEq] at h
-      obtain ⟨rfl, _⟩ := h; exact hI
-    · next hne =>
-      split at h
-      · next p2 hfull =>
-        split at h
-        · simp only [Option.some.injEq, Prod.mk.injEq] at h
-          obtain ⟨rfl, _⟩ := h; exact hI
-        · simp at h
-      · next hfull =>
-        simp only [Option.some.injEq, Prod.mk.injEq] at h
-        obtain ⟨rfl, rfl⟩ := h
-        have hk : full (unv r.path) ∉ keys t := lookup_none_iff.1 hfull
-        refine ⟨by rw [keys_append]; exact nodup_append_single hI.keysNodup (by simpa [keys] using hk), ?_⟩
-        intro b q hb
-        rcases List.mem_append.1 hb with hb | hb
-        · rcases hI.shape b q hb with h1 | ⟨h1, h2, h3⟩
-          · exact Or.inl h1
-          · refine Or.inr ⟨h1, by rw [keys_append]; exact List.mem_append_left _ h2, ?_⟩
-            obtain ⟨q', hq⟩ : ∃ q', lookup (nm q) t = some q' := by
-              cases hl : lookup (nm q) t with
-              | none => exact absurd (lookup_none_iff.1 hl) (by simpa using h2)
-              | some q' => exact ⟨q', rfl⟩
-            rw [lookup_append_left hq]; rw [hq] at h3; exact h3
-        · simp at hb; obtain ⟨rfl, rfl⟩ := hb
-          refine Or.inr ⟨rfl, ?_, ?_⟩
-          · rw [keys_append, ← hc]
-            exact List.mem_append_left _ (by
-              have := lookup_some_mem hsome
-              exact List.mem_map.2 ⟨_, this, rfl⟩)
-          · rw [← hc, lookup_append_left hsome]
-            intro e; simp at e; exact hne e
+    · next hu =>
+      simp at h; subst h
+      exact ⟨i, Nat.le_refl _, by omega, rfl, hu, fun k h1 h2 => by omega⟩
+    · next hu =>
+      obtain ⟨j, h1, h2, h3, h4, h5⟩ := findAlias_some fuel (i + 1) h
+      refine ⟨j, by omega, by omega, h3, h4, ?_⟩
+      intro k hk1 hk2
+      by_cases hki : k = i
+      · subst hki; simpa using hu
+      · exact h5 k (by omega) hk2
+
+theorem findAlias_of : ∀ (fuel i j : Nat), i ≤ j → j < i + fuel →
+    (∀ k, i ≤ k → k < j → usable t (sfx fp k) path = false) → usable t (sfx fp j) path = true →
+    findAlias sfx t fp path fuel i = some (sfx fp j)
+  | 0, i, j, h1, h2, _, _ => by omega
+  | fuel + 1, i, j, h1, h2, hb, hu => by
+    unfold findAlias
+    by_cases hij : i = j
+    · subst hij; simp [hu]
+    · have := hb i (Nat.le_refl _) (by omega)
+      simp only [this, Bool.false_eq_true, if_false]
+      exact findAlias_of fuel (i + 1) j (by omega) (by omega) (fun k hk1 hk2 => hb k (by omega) hk2) hu
+
+theorem findAlias_none : ∀ (fuel i : Nat), findAlias sfx t fp path fuel i = none →
+    ∀ k, i ≤ k → k < i + fuel → usable t (sfx fp k) path = false
+  | 0, _, _, k, h1, h2 => by omega
+  | fuel + 1, i, h, k, h1, h2 => by
+    unfold findAlias at h
+    split at h
+    · simp at h
+    · next hu =>
+      by_cases hki : k = i
+      · subst hki; simpa using hu
+      · exact findAlias_none fuel (i + 1) h k (by omega) (by omega)
+
+end
+
+/-- the numbered aliases of one full path are pairwise different (strconv.Itoa is injective) -/
+def SfxInj (sfx : String → Nat → String) : Prop := ∀ fp i j, sfx fp i = sfx fp j → i = j
+
+/-- The search loop terminates: among len(table)+1 different candidates one is not a key of the table. -/
+theorem findAlias_total {sfx : String → Nat → String} (hinj : SfxInj sfx) (t : Table) (fp path : String) :
+    findAlias sfx t fp path (t.length + 1) 0 ≠ none := by
+  intro h
+  have hall := findAlias_none sfx t fp path (t.length + 1) 0 h
+  let cands := (List.range' 0 (t.length + 1)).map (sfx fp)
+  have hnd : cands.Nodup := by
+    have := List.nodup_range' (s := 0) (n := t.length + 1) 1
+    rw [List.nodup_iff_pairwise_ne] at this ⊢
+    exact List.Pairwise.map _ (fun a b hab e => hab (hinj fp a b e)) this
+  have hsub : cands ⊆ keys t := by
+    intro a ha
+    obtain ⟨k, hk, rfl⟩ := List.mem_map.1 ha
+    obtain ⟨i, hi, rfl⟩ := List.mem_range'.1 hk
+    obtain ⟨q, hq, _⟩ := not_usable_iff.1 (hall (0 + 1 * i) (by omega) (by omega))
+    exact List.mem_map.2 ⟨_, lookup_some_mem hq, rfl⟩
+  have := hnd.length_le_of_subset hsub
+  simp [cands, keys] at this
+  omega
+
+/-- NewImport always returns (no panic, no endless loop). -/
+theorem newImport_total {unv full : String → String} {sfx : String → Nat → String} (hinj : SfxInj sfx)
+    (t : Table) (r : Req) : newImport unv full sfx t r ≠ none := by
+  unfold newImport
+  split
+  · simp
+  · cases h : findAlias sfx t (full (unv r.path)) (unv r.path) (t.length + 1) 0 with
+    | none => exact absurd h (findAlias_total hinj t _ _)
+    | some a => simp
+
+theorem run_total {unv full : String → String} {sfx : String → Nat → String} (hinj : SfxInj sfx) :
+    ∀ (rs : List Req) (t : Table), run unv full sfx t rs ≠ none
+  | [], t => by simp [run]
+  | r :: rs, t => by
+    unfold run
+    cases h : newImport unv full sfx t r with
+    | none => exact absurd h (newImport_total hinj t r)
+    | some x =>
+      obtain ⟨t', a⟩ := x
+      simp only
+      cases h2 : run unv full sfx t' rs with
+      | none => exact absurd h2 (run_total hinj rs t')
+      | some y => simp
+
+/-- what a successful call looks like -/
+theorem newImport_spec {unv full : String → String} {sfx : String → Nat → String} {t t' : Table} {r : Req}
+    {a : String} (h : newImport unv full sfx t r = some (t', a)) :
+    t' = bind t a (unv r.path) ∧ usable t a (unv r.path) = true ∧
+      (a = r.name ∨
+        (usable t r.name (unv r.path) = false ∧ ∃ j, j ≤ t.length ∧ a = sfx (full (unv r.path)) j ∧
+          ∀ k, k < j → usable t (sfx (full (unv r.path)) k) (unv r.path) = false)) := by
+  unfold newImport at h
+  split at h
+  · next hu => simp at h; obtain ⟨rfl, rfl⟩ := h; exact ⟨rfl, hu, Or.inl rfl⟩
+  · next hu =>
+    split at h
+    · simp at h
+    · next a' hf =>
+      simp at h; obtain ⟨rfl, rfl⟩ := h
+      obtain ⟨j, _, h2, h3, h4, h5⟩ := findAlias_some sfx t _ _ _ _ hf
+      exact ⟨rfl, h4, Or.inr ⟨by simpa using hu, j, by omega, h3, fun k hk => h5 k (Nat.zero_le _) hk⟩⟩
+
+/-! ### the invariant -/
+
+/-- `nm` gives the package name of an (unvendored) import path: the requests are consistent when every
+request for a path carries that name (go/types: a package has one name; the plugins' own
+`p.NewImport("bytes", "bytes")` calls use the real name). -/
+def Consistent (unv nm : String → String) (r : Req) : Prop := r.name = nm (unv r.path)
+
+/-- an entry is under its package name, or under the j-th numbered full-path alias with the package name and
+all earlier candidates taken by other paths -/
+def Shape (full nm : String → String) (sfx : String → Nat → String) (t : Table) (a p : String) : Prop :=
+  a = nm p ∨ ∃ j, a = sfx (full p) j ∧ usable t (nm p) p = false ∧ ∀ k, k < j → usable t (sfx (full p) k) p = false
+
+theorem Shape.mono {full nm : String → String} {sfx : String → Nat → String} {t : Table} {a p : String}
+    (h : Shape full nm sfx t a p) (u : Table) : Shape full nm sfx (t ++ u) a p := by
+  rcases h with h | ⟨j, h1, h2, h3⟩
+  · exact Or.inl h
+  · exact Or.inr ⟨j, h1, not_usable_append h2, fun k hk => not_usable_append (h3 k hk)⟩
+
+/-- Invariant of the table: aliases are distinct, every entry has the shape above. -/
+structure Inv (full nm : String → String) (sfx : String → Nat → String) (t : Table) : Prop where
+  keysNodup : (keys t).Nodup
+  shape : ∀ a p, (a, p) ∈ t → Shape full nm sfx t a p
+
+theorem inv_nil (full nm : String → String) (sfx : String → Nat → String) : Inv full nm sfx [] :=
+  ⟨by simp [keys], by intro a p h; simp at h⟩
+
+/-- Every path occurs under exactly one alias ("one alias per path"). -/
+theorem Inv.vals_unique {full nm : String → String} {sfx : String → Nat → String} {t : Table}
+    (h : Inv full nm sfx t) {a b p : String} (ha : (a, p) ∈ t) (hb : (b, p) ∈ t) : a = b := by
+  have bound : ∀ {c}, (c, p) ∈ t → usable t c p = true := fun hc =>
+    usable_iff.2 (Or.inr (lookup_of_mem_nodup h.keysNodup hc))
+  rcases h.shape a p ha with h1 | ⟨i, h1, h1n, h1b⟩ <;> rcases h.shape b p hb with h2 | ⟨j, h2, h2n, h2b⟩
+  · rw [h1, h2]
+  · have := bound (h1 ▸ ha); rw [h2n] at this; cases this
+  · have := bound (h2 ▸ hb); rw [h1n] at this; cases this
+  · rcases Nat.lt_trichotomy i j with hij | hij | hij
+    · have := bound (h1 ▸ ha); rw [h2b i hij] at this; cases this
+    · rw [h1, h2, hij]
+    · have := bound (h2 ▸ hb); rw [h1b j hij] at this; cases this
+
+/-- NewImport preserves the invariant. -/
+theorem newImport_inv {unv full nm : String → String} {sfx : String → Nat → String} {t t' : Table} {r : Req}
+    {a : String} (hI : Inv full nm sfx t) (hc : Consistent unv nm r)
+    (h : newImport unv full sfx t r = some (t', a)) : Inv full nm sfx t' := by
+  obtain ⟨rfl, hu, hcase⟩ := newImport_spec h
+  unfold Consistent at hc
+  refine ⟨bind_keys_nodup _ _ hI.keysNodup, ?_⟩
+  intro b p hb
+  unfold bind at hb ⊢
+  cases hl : lookup a t with
+  | some q => rw [hl] at hb; simp only at hb ⊢; exact hI.shape b p hb
+  | none =>
+    rw [hl] at hb; simp only at hb ⊢
+    rcases List.mem_append.1 hb with hb | hb
+    · exact (hI.shape b p hb).mono _
+    · simp at hb; obtain ⟨rfl, rfl⟩ := hb
+      rcases hcase with rfl | ⟨hn, j, _, rfl, hblk⟩
+      · exact Or.inl hc
+      · refine Or.inr ⟨j, rfl, ?_, fun k hk => not_usable_append (hblk k hk)⟩
+        rw [← hc]; exact not_usable_append hn
 
 /-- Lifted to whole request sequences. -/
-theorem run_inv {unv full nm : String → String} :
-    ∀ {rs : List Req} {t t' : Table} {as : List String}, Inv full nm t →
-      (∀ r ∈ rs, Consistent unv nm r) → run unv full t rs = some (t', as) → Inv full nm t'
+theorem run_inv {unv full nm : String → String} {sfx : String → Nat → String} :
+    ∀ {rs : List Req} {t t' : Table} {as : List String}, Inv full nm sfx t →
+      (∀ r ∈ rs, Consistent unv nm r) → run unv full sfx t rs = some (t', as) → Inv full nm sfx t'
   | [], t, t', as, hI, _, h => by simp [run] at h; obtain ⟨rfl, _⟩ := h; exact hI
   | r :: rs, t, t', as, hI, hc, h => by
     unfold run at h
@@ -236,112 +390,44 @@ theorem run_inv {unv full nm : String → String} :
         exact run_inv (newImport_inv hI (hc r (List.mem_cons_self ..)) h1)
           (fun r' hr' => hc r' (List.mem_cons_of_mem _ hr')) h2
 
-/-! ### idempotence: asking again changes nothing (nameOf re-qualifies on every lookup, pkg.Done's early
-exit decides which tables are consulted: neither can change the table) -/
+/-! ### asking again changes nothing (nameOf re-qualifies on every lookup, pkg.Done's early exit decides
+which tables are consulted: neither can change the table) -/
 
-theorem newImport_idempotent {unv full : String → String} {t t' : Table} {r : Req} {a : String}
-    (h : newImport unv full t r = some (t', a)) :
-    newImport unv full t' r = some (t', a) := by
-  unfold newImport at h
-  simp only at h
-  split at h
-  · next hnone =>
-    simp only [Option.some.injEq, Prod.mk.injEq] at h
-    obtain ⟨rfl, rfl⟩ := h
-    have : lookup r.name (t ++ [(r.name, unv r.path)]) = some (unv r.path) := by
-      rw [lookup_append_none hnone]; simp [lookup]
-    simp [newImport, this]
-  · next p hsome =>
-    split at h
-    · next hp =>
-      simp only [Option.some.injEq, Prod.mk.injEq] at h
-      obtain ⟨rfl, rfl⟩ := h
-      simp [newImport, hsome, hp]
-    · next hne =>
-      split at h
-      · next p2 hfull =>
-        split at h
-        · next hp2 =>
-          simp only [Option.some.injEq, Prod.mk.injEq] at h
-          obtain ⟨rfl, rfl⟩ := h
-          simp [newImport, hsome, hne, hfull, hp2]
-        · simp at h
-      · next hfull =>
-        simp only [Option.some.injEq, Prod.mk.injEq] at h
-        obtain ⟨rfl, rfl⟩ := h
-        have h1 : lookup r.name (t ++ [(full (unv r.path), unv r.path)]) = some p := lookup_append_left hsome
-        have h2 : lookup (full (unv r.path)) (t ++ [(full (unv r.path), unv r.path)]) = some (unv r.path) := by
-          rw [lookup_append_none hfull]; simp [lookup]
-        simp [newImport, h1, hne, h2]
+theorem newImport_extends {unv full : String → String} {sfx : String → Nat → String} {t t' : Table} {r : Req}
+    {a : String} (h : newImport unv full sfx t r = some (t', a)) : ∃ u, t' = t ++ u := by
+  obtain ⟨rfl, _, _⟩ := newImport_spec h
+  exact bind_extends _ _ _
 
-/-- A request that is at its fixed point stays there when the table grows. -/
-theorem newImport_stable {unv full : String → String} {t u : Table} {r : Req} {a : String}
-    (h : newImport unv full t r = some (t, a)) :
-    newImport unv full (t ++ u) r = some (t ++ u, a) := by
-  unfold newImport at h
-  simp only at h
-  split at h
-  · next hnone =>
-    simp only [Option.some.injEq, Prod.mk.injEq] at h
-    have := congrArg List.length h.1
-    simp at this
-  · next p hsome =>
-    split at h
-    · next hp =>
-      simp only [Option.some.injEq, Prod.mk.injEq] at h
-      obtain ⟨_, rfl⟩ := h
-      simp [newImport, lookup_append_left hsome, hp]
-    · next hne =>
-      split at h
-      · next p2 hfull =>
-        split at h
-        · next hp2 =>
-          simp only [Option.some.injEq, Prod.mk.injEq] at h
-          obtain ⟨_, rfl⟩ := h
-          simp [newImport, lookup_append_left hsome, hne, lookup_append_left hfull, hp2]
-        · simp at h
-      · next hfull =>
-        simp only [Option.some.injEq, Prod.mk.injEq] at h
-        have := congrArg List.length h.1
-        simp at this
-
-/-! ### the panic -/
-
-/-- Exactly when `panic("non unique fullpath")` is reached. -/
-theorem newImport_panics_iff (unv full : String → String) (t : Table) (r : Req) :
-    newImport unv full t r = none ↔
-      (∃ p, lookup r.name t = some p ∧ p ≠ unv r.path) ∧
-      (∃ p2, lookup (full (unv r.path)) t = some p2 ∧ p2 ≠ unv r.path) := by
+/-- Once a request has been answered, it is answered the same way, without changing the table, in every
+later (larger) table. -/
+theorem newImport_after {unv full : String → String} {sfx : String → Nat → String} {t t' : Table} {r : Req}
+    {a : String} (h : newImport unv full sfx t r = some (t', a)) (u : Table) :
+    newImport unv full sfx (t' ++ u) r = some (t' ++ u, a) := by
+  obtain ⟨rfl, hu, hcase⟩ := newImport_spec h
+  obtain ⟨w, hw⟩ := bind_extends t a (unv r.path)
+  have hbound : lookup a (bind t a (unv r.path) ++ u) = some (unv r.path) := lookup_append_left (lookup_bind hu)
+  have husable : usable (bind t a (unv r.path) ++ u) a (unv r.path) = true := usable_iff.2 (Or.inr hbound)
   unfold newImport
-  simp only
-  cases h1 : lookup r.name t with
-  | none => simp
-  | some p =>
-    by_cases hp : p = unv r.path
-    · simp [hp]
-    · cases h2 : lookup (full (unv r.path)) t with
-      | none => simp [hp]
-      | some p2 =>
-        by_cases hp2 : p2 = unv r.path
-        · simp [hp, hp2]
-        · simp [hp, hp2]
+  rcases hcase with rfl | ⟨hn, j, hj, rfl, hblk⟩
+  · simp [husable, bind_of_bound hbound]
+  · have hn' : usable (bind t r.name (unv r.path) ++ u) r.name (unv r.path) = false := by
+      rw [show bind t r.name (unv r.path) = t ++ (match lookup r.name t with | none => [(r.name, unv r.path)] | some _ => []) by
+        unfold bind; cases lookup r.name t <;> simp, List.append_assoc]
+      exact not_usable_append hn
+    have hn2 : usable (bind t (sfx (full (unv r.path)) j) (unv r.path) ++ u) r.name (unv r.path) = false := by
+      rw [hw, List.append_assoc]; exact not_usable_append hn
+    simp only [hn2, Bool.false_eq_true, if_false]
+    have hfind := findAlias_of sfx (bind t (sfx (full (unv r.path)) j) (unv r.path) ++ u) (full (unv r.path)) (unv r.path)
+      ((bind t (sfx (full (unv r.path)) j) (unv r.path) ++ u).length + 1) 0 j (Nat.zero_le _)
+      (by rw [hw]; simp; omega)
+      (fun k _ hk => by rw [hw, List.append_assoc]; exact not_usable_append (hblk k hk)) husable
+    rw [hfind]
+    simp [bind_of_bound hbound]
 
-/-- Side condition under which the panic is unreachable: on the paths in play `full` is injective and no
-package is *named* like the full path of another one. -/
-def NoClash (full nm : String → String) (paths : List String) : Prop :=
-  ∀ p ∈ paths, ∀ q ∈ paths, (full p = full q → p = q) ∧ (full p = nm q → p = q)
-
-theorem newImport_no_panic {unv full nm : String → String} {t : Table} {r : Req} {paths : List String}
-    (hI : Inv full nm t) (hnc : NoClash full nm paths)
-    (hp : unv r.path ∈ paths) (ht : ∀ p ∈ vals t, p ∈ paths) :
-    newImport unv full t r ≠ none := by
-  intro h
-  obtain ⟨_, p2, h2, hne⟩ := (newImport_panics_iff unv full t r).1 h
-  have hm := lookup_some_mem h2
-  have hp2 : p2 ∈ paths := ht p2 (List.mem_map.2 ⟨_, hm, rfl⟩)
-  rcases hI.shape _ _ hm with h3 | ⟨h3, _⟩
-  · exact hne ((hnc _ hp _ hp2).2 h3).symm
-  · exact hne ((hnc _ hp _ hp2).1 h3).symm
+theorem newImport_idempotent {unv full : String → String} {sfx : String → Nat → String} {t t' : Table} {r : Req}
+    {a : String} (h : newImport unv full sfx t r = some (t', a)) :
+    newImport unv full sfx t' r = some (t', a) := by
+  simpa using newImport_after h []
 
 /-! ### unvendor, on path segments (a path is its list of `/`-separated segments)
 
